@@ -1,6 +1,7 @@
 from __future__ import annotations
 
 import logging
+import math
 from typing import TYPE_CHECKING, Tuple, Type, Union
 
 from indi.device import events, values
@@ -137,6 +138,12 @@ class Number(Element):
 
     def set_value_from_message(self, msg):
         self.set_value(values.str_to_num(msg.value, self._definition.format))
+
+    def check_value(self, value):
+        # OverflowError for integers no float can hold
+        if value is not None and not math.isfinite(value):
+            raise ValueError(f"Value of {self.name} has to be a finite number")
+        return value
 
 
 class Text(Element):
